@@ -41,6 +41,8 @@ struct DealerSocketOutgoingProcessor {
   pending_backlog: Arc<std::sync::atomic::AtomicUsize>,
   outgoing_orchestrator: Arc<OutgoingMessageOrchestrator>,
   queue_activity_notifier: Arc<Notify>,
+  /// Signalled whenever a message has left `pending_queue`: wakes a send() waiting for room.
+  queue_space_notifier: Arc<Notify>,
   peer_availability_notifier: Arc<Notify>,
   stop_signal: Arc<Notify>,
 }
@@ -88,6 +90,7 @@ impl DealerSocketOutgoingProcessor {
         match self.outgoing_orchestrator.route_message(zmtp_frames_for_logical_message, false).await {
           Ok(()) => {
             self.pending_backlog.fetch_sub(1, std::sync::atomic::Ordering::AcqRel);
+            self.queue_space_notifier.notify_one();
             // A notification is a single stored permit, however many messages were queued meanwhile:
             // keep going until the queue is empty instead of waiting for some later event.
             if !self.pending_queue.lock().await.is_empty() {
@@ -130,6 +133,7 @@ pub(crate) struct DealerSocket {
   /// While it is non-zero a new message must queue behind them instead of being routed directly.
   pending_backlog: Arc<std::sync::atomic::AtomicUsize>,
   outgoing_queue_activity_notifier: Arc<Notify>,
+  queue_space_notifier: Arc<Notify>,
   peer_availability_notifier: Arc<Notify>,
   processor_task_handle: TokioMutex<Option<JoinHandle<()>>>,
   processor_stop_signal: Arc<Notify>,
@@ -142,6 +146,7 @@ impl DealerSocket {
     let pending_queue_arc = Arc::new(TokioMutex::new(VecDeque::new()));
     let orchestrator_arc = Arc::new(OutgoingMessageOrchestrator::new());
     let queue_notifier_arc = Arc::new(Notify::new());
+    let queue_space_arc = Arc::new(Notify::new());
     let peer_notifier_arc = Arc::new(Notify::new());
     let stop_signal_arc = Arc::new(Notify::new());
     let backlog_arc = Arc::new(std::sync::atomic::AtomicUsize::new(0));
@@ -152,6 +157,7 @@ impl DealerSocket {
       pending_backlog: backlog_arc.clone(),
       outgoing_orchestrator: orchestrator_arc.clone(),
       queue_activity_notifier: queue_notifier_arc.clone(),
+      queue_space_notifier: queue_space_arc.clone(),
       peer_availability_notifier: peer_notifier_arc.clone(),
       stop_signal: stop_signal_arc.clone(),
     };
@@ -168,6 +174,7 @@ impl DealerSocket {
       pending_outgoing_queue: pending_queue_arc,
       pending_backlog: backlog_arc,
       outgoing_queue_activity_notifier: queue_notifier_arc,
+      queue_space_notifier: queue_space_arc,
       peer_availability_notifier: peer_notifier_arc,
       processor_task_handle: TokioMutex::new(Some(processor_jh)),
       processor_stop_signal: stop_signal_arc,
@@ -532,6 +539,7 @@ impl ISocket for DealerSocket {
           }
         }
         self.outgoing_queue_activity_notifier.notify_waiters();
+        self.queue_space_notifier.notify_waiters();
         self.peer_availability_notifier.notify_waiters();
       }
       _ => return Ok(false),
@@ -667,7 +675,7 @@ impl DealerSocket {
       match global_sndtimeo {
         Some(duration) if duration.is_zero() => return Err(ZmqError::ResourceLimitReached),
         Some(duration) => {
-          let queue_wait_fut = self.outgoing_queue_activity_notifier.notified();
+          let queue_wait_fut = self.queue_space_notifier.notified();
           if tokio_timeout(duration, queue_wait_fut).await.is_err() {
             return Err(ZmqError::Timeout);
           }
@@ -678,8 +686,7 @@ impl DealerSocket {
             _ = async { if !self.core.is_running() { futures::future::pending().await } else { futures::future::pending().await } } => {
               return Err(ZmqError::InvalidState("Socket is closing while waiting for queue space".into()));
             }
-            _ = self.outgoing_queue_activity_notifier.notified() => {}
-            _ = self.peer_availability_notifier.notified() => {}
+            _ = self.queue_space_notifier.notified() => {}
           }
         }
       }
